@@ -46,7 +46,10 @@ class Schedule(Strategy):
         duration = timedelta()
         interval = timedelta(minutes=1)
 
-        while dt_within_core_standing_time(self.current_time + duration, self.core_standing_time):
+        # core standing times repeat weekly (holidays aside): without an end within eight days there is none
+        # (e.g. all seven weekdays are no-drive days) - stop instead of scanning forever
+        while (duration < timedelta(days=8) and
+               dt_within_core_standing_time(self.current_time + duration, self.core_standing_time)):
             duration += interval
 
         return duration
